@@ -557,6 +557,10 @@ fn run(scn: &Scn, ctx: &mut Ctx) -> Result<(), Violation> {
     // expand Line events
     let mut flat: Vec<(usize, Ev)> = vec![];
     let mut submitted = 0u32;
+    // reference for plain typing: the text of the input field while only printable characters (and
+    // Enter) have been typed since the field was last empty; None = not tracked (editing keys,
+    // completion, history, a notification swallowing the key, control characters)
+    let mut typed: Option<String> = Some(String::new());
     for (i, e) in scn.events.iter().enumerate() {
         match e {
             Ev::Line(l) => {
@@ -666,6 +670,37 @@ fn run(scn: &Scn, ctx: &mut Ctx) -> Result<(), Violation> {
             ctx.cov.distinct(mix(est, kind));
         }
         let quit = s.frame(event, i, &what, ctx)?;
+        match e {
+            Ev::Char(c) => {
+                if notif_before || c.is_control() {
+                    typed = None;
+                } else if let Some(t) = typed.as_mut() {
+                    t.push(*c);
+                }
+            }
+            Ev::Mouse | Ev::Resize(..) | Ev::ResizeEvent(..) | Ev::Idle(_) => {}
+            _ => typed = None,
+        }
+        if !quit {
+            let now: String = s.tui.verif_input_field().current().iter().collect();
+            if let Some(t) = &typed {
+                ctx.cov.probe("typed-text-compared");
+                if *t != now {
+                    let k = t.chars().zip(now.chars()).take_while(|(a, b)| a == b).count();
+                    return Err(v(
+                        "typed-text",
+                        i,
+                        format!(
+                            "{}: after typing {} printable characters into the empty field it holds {} characters (first difference at character {}): a submitted line would not be the line that was typed",
+                            what, t.chars().count(), now.chars().count(), k
+                        ),
+                    ));
+                }
+            }
+            if now.is_empty() {
+                typed = Some(String::new());
+            }
+        }
         if !quit {
             // (a frame that ends the session does not draw)
             s.cursor_check(i)?;
@@ -934,7 +969,7 @@ pub fn command_line(rng: &mut Rng) -> String {
         }
         _ => {
             // not a command at all
-            l.push_str(*rng.pick(&["help", "FB = 1", "reset", "é", "set", "unset", "load", "= 5", "FC 5", "set FC", "set TEMP", "漢字", "F", "Fé", "set İ1 = 2", "set İRG = 5", "ſet J1", "SET ı1 = 1", "unſet J1", "\u{212A}", "set UİO1", "qUİT", "İ"]));
+            l.push_str(*rng.pick(&["help", "FB = 1", "reset", "é", "set", "unset", "load", "= 5", "FC 5", "set FC", "set TEMP", "漢字", "F", "Fé", "set İ1 = 2", "set İRG = 5", "ſet J1", "SET ı1 = 1", "unſet J1", "\u{212A}", "set UİO1", "qUİT", "İ", "quİ", "QUİ", "exİ", "set UİO", "unset UİO", "set İ = 1.5", "set İR = 5", "show regİste", "FC = 0\u{212A}"]));
         }
     }
     match rng.below(10) {
@@ -1057,7 +1092,7 @@ impl Check for C17 {
         let fam_idx = idx - enum_count(tier);
         if fam_idx == 1 || (tier == Tier::Thorough && fam_idx % 20_000 == 1) {
             // a large `next N` on a program that keeps running (Real step mode)
-            let n = 7_300_000 + rng.below(300_000);
+            let n = 7_380_000 + rng.below(600_000);
             let events = vec![Ev::Line("load count.asm".into()), Ev::Line(format!("next {}", n)), Ev::Line("next 3".into())];
             return Scn { w: 100, h: 40, preload: false, autorun: 0, events, init: [0; 6] };
         }
